@@ -29,6 +29,20 @@ pub const MAIN_PATTERNS: &[&str] = &[
     r"/é/(?:[0-9]+)",
     r"/a/\(x\)/(?:[a-z]+)",
     r"(?:[a-z]+)\.example",
+    r"/éé/(?:[a-z]+)",
+    r"/éé/(?:[0-9]+)",
+];
+
+/// patterns diverging at special positions: directly after a backslash, inside a multi-byte prefix
+pub const EDGE_PATTERNS: &[&str] = &[
+    r"/a\.b/(?:.+?)",
+    r"/a\-b/(?:.+?)",
+    r"/a\.c/(?:[a-z]+)",
+    r"/éé/(?:[a-z]+)",
+    r"/éé/(?:[0-9]+)",
+    r"/éa/(?:[a-z]+)",
+    r"/a/(?:[a-z]+)",
+    r"/a/(?:[a-z]+)\.x",
 ];
 
 /// marker expressions whose character classes contain parentheses (own signature family)
@@ -48,6 +62,7 @@ pub const HAYSTACKS: &[&str] = &[
     "/a/", "/a", "", "/", "/a.b/x", "/a.c/x", "/aXb/x", "/a.b/", "/a.b/x/y", "/a.c/", "/é/b", "/é/1", "/e/b", "/é/", "/a/(x)/q", "/a/(x)/", "/a/x/q",
     "b.example", "B.example", "b.Example", "bXexample", ".example", "/a/b\n", "x/a/b", "/a/b)", "/a/(b", "/a/(c", "/a/(b/x", "/a/)/x", "/a/q/x", "/a/(d",
     "/a/]", "/a/()", "/a/q)/x", "/a/(/x", "/a/b(/y", "/a/]/x", "/a/b/y",
+    "/a-b/x", "/a.c/x", "/éé/b", "/éé/1", "/éa/b", "/a/b.x", "/a/bXx",
 ];
 
 #[derive(Clone, Debug, Serialize, Deserialize, PartialEq, Eq)]
@@ -447,7 +462,7 @@ impl<'a> Explorable for Model<'a> {
             ops.push(Op::RetainOdd);
             ops.push(Op::RetainNone);
         }
-        if self.cfg.cache_ops && !s.live.is_empty() {
+        if self.cfg.cache_ops {
             ops.push(Op::Cache(8, None));
             ops.push(Op::Cache(1, None));
             ops.push(Op::Cache(1, Some(0)));
@@ -463,14 +478,32 @@ impl<'a> Explorable for Model<'a> {
     fn check_state(&self, s: &State, _depth: usize) {
         self.check(s);
     }
+
+    fn report_panic(&self, s: &State, a: Option<&Op>, location: &str, message: &str) {
+        let mut history = s.history.clone();
+        if let Some(a) = a {
+            history.push(a.clone());
+        }
+        self.ctx.report(Violation {
+            signature: format!("panic:{location}"),
+            what: format!("the tree panicked at {location}: {message} (set {}, last operation {a:?})", self.cfg.set),
+            case: self.case(&history),
+            weight: history.len() as u64,
+        });
+    }
 }
 
 fn configs(tier: Tier) -> Vec<(Config, usize)> {
     let main_n = tier.pick(8, MAIN_PATTERNS.len());
     let main: Vec<String> = MAIN_PATTERNS[..main_n].iter().map(|s| s.to_string()).collect();
     let class: Vec<String> = CLASS_PATTERNS.iter().map(|s| s.to_string()).collect();
+    let edge: Vec<String> = EDGE_PATTERNS.iter().map(|s| s.to_string()).collect();
     let mut out = Vec::new();
     for ignore_case in [false, true] {
+        out.push((
+            Config { set: "edge".into(), patterns: edge.clone(), unique: false, ignore_case, second_ids: false, cache_ops: false },
+            tier.pick(4, 5),
+        ));
         out.push((
             Config { set: "main".into(), patterns: main.clone(), unique: false, ignore_case, second_ids: true, cache_ops: true },
             tier.pick(4, 5),
